@@ -472,3 +472,18 @@ func (w *World) noteSMS() {
 		}
 	}
 }
+
+// SeedRaw creates a confirmed account under an arbitrary concrete PID.
+func (w *World) SeedRaw(pid, pw string) {
+	h, _ := bcrypt.GenerateFromPassword([]byte(pw), bcrypt.MinCost)
+	w.In.Store.Poke(&User{PID: pid, Email: pid, Password: string(h), Confirmed: true})
+}
+
+// RawHasSemicolon reports whether the nonce part of a remember cookie contains the separator.
+func RawHasSemicolon(cookie string, pidLen int) bool {
+	raw, err := base64.URLEncoding.DecodeString(cookie)
+	if err != nil || len(raw) <= pidLen+1 {
+		return false
+	}
+	return strings.Contains(string(raw[pidLen+1:]), ";")
+}
